@@ -35,7 +35,7 @@ func r19_1(c *RC) {
 			c.Anchor(m.fn + " / Session." + m.counter)
 			continue
 		}
-		isAdd := func(in ssa.Instruction) bool {
+		isDirectAdd := func(in ssa.Instruction) bool {
 			cl, ok := in.(ssa.CallInstruction)
 			if !ok || !cl.Common().IsInvoke() || cl.Common().Method.Name() != "Add" {
 				return false
@@ -45,7 +45,51 @@ func r19_1(c *RC) {
 			}
 			return true
 		}
-		atom := func(cond ssa.Value) (string, int, bool) {
+		var atom func(cond ssa.Value) (string, int, bool)
+		// countingHelper: a Session method that, for a server session with
+		// the counter attached, adds its parameter to the counter on every
+		// path (the accounting lines extracted from Read/Write); returns
+		// the parameter index
+		countingHelper := func(h *ssa.Function) (int, bool) {
+			if h == nil || h.Blocks == nil || relPkg(h) != protoPkg || h == fn {
+				return 0, false
+			}
+			idx := -1
+			n := 0
+			instrs(h, func(_ *ssa.BasicBlock, _ int, in ssa.Instruction) {
+				if !isDirectAdd(in) {
+					return
+				}
+				n++
+				for _, l := range Leaves(in.(ssa.CallInstruction).Common().Args[0], nil) {
+					for i, prm := range h.Params {
+						if ssa.Value(prm) == l {
+							idx = i
+						}
+					}
+				}
+			})
+			if n == 0 || idx < 0 {
+				return 0, false
+			}
+			ex := &Explorer{Fn: h, Atom: func(c ssa.Value) (string, int, bool) { return atom(c) }, Assume: map[string]bool{"isClient": false, "counter-attached": true}, Avoid: isDirectAdd}
+			if ex.Reach(nil, isReturn) != nil || ex.Over {
+				return 0, false
+			}
+			return idx, true
+		}
+		isAdd := func(in ssa.Instruction) bool {
+			if isDirectAdd(in) {
+				return true
+			}
+			if cl, ok := in.(*ssa.Call); ok {
+				if _, ok := countingHelper(cl.Call.StaticCallee()); ok {
+					return true
+				}
+			}
+			return false
+		}
+		atom = func(cond ssa.Value) (string, int, bool) {
 			if f := fieldOrigin(cond); f != nil && f.Name() == "isClient" {
 				return "isClient", 0, true
 			}
@@ -95,6 +139,11 @@ func r19_1(c *RC) {
 				return
 			}
 			arg := in.(ssa.CallInstruction).Common().Args[0]
+			if cl, ok := in.(*ssa.Call); ok && !isDirectAdd(in) {
+				if idx, ok := countingHelper(cl.Call.StaticCallee()); ok && idx < len(cl.Call.Args) {
+					arg = cl.Call.Args[idx]
+				}
+			}
 			named := false
 			for _, l := range Leaves(arg, nil) {
 				if u, ok := l.(*ssa.UnOp); ok {
@@ -287,12 +336,29 @@ func r19_3(c *RC) {
 				}
 			}
 		case *ssa.BinOp:
-			if x.Op == token.GTR {
-				if q, ok := x.X.(*ssa.BinOp); ok && q.Op == token.QUO {
-					if k, ok := constInt(q.Y); ok && k == 1048576 {
-						cmp = true
+			// used megabytes > allowance, in any spelling (allowance < used,
+			// through a local): one side is bytes / 1048576, the other derives
+			// from quota.Megabytes()
+			isUsedMB := func(v ssa.Value) bool {
+				for _, l := range Leaves(v, nil) {
+					if q, ok := l.(*ssa.BinOp); ok && q.Op == token.QUO {
+						if k, ok := constInt(q.Y); ok && k == 1048576 {
+							return true
+						}
 					}
 				}
+				return false
+			}
+			isAllowance := func(v ssa.Value) bool {
+				for _, l := range Leaves(v, nil) {
+					if cl, ok := l.(*ssa.Call); ok && calleeName(cl) == "Megabytes" {
+						return true
+					}
+				}
+				return false
+			}
+			if cmpForm(x, token.GTR, isUsedMB, isAllowance) {
+				cmp = true
 			}
 		}
 	})
@@ -440,12 +506,15 @@ func r19_4(c *RC) {
 		default:
 			return
 		}
-		for _, l := range Leaves(rec, nil) {
-			switch l.(type) {
-			case *ssa.Alloc:
-			case *ssa.Const:
-			default:
-				mut = describe(l)
+		for _, l0 := range Leaves(rec, nil) {
+			// a record made by a local constructor helper is as fresh as a literal
+			for _, l := range helperResultLeaves(p, l0) {
+				switch l.(type) {
+				case *ssa.Alloc:
+				case *ssa.Const:
+				default:
+					mut = describe(l)
+				}
 			}
 		}
 	})
